@@ -100,5 +100,85 @@ func properties() map[string]Property {
 		Assumes: []string{floatAssume, solverAssume, "SimplifyPathD and the Paths variants are covered by C07's plumbing equivalence, not here", "power-of-two scaling invariance is not decided (float model does not track exact scaling)"},
 		Jobs:    c16}
 
+	famText := map[int64]string{0: "R(1,1): one subject and one clip rectangle", 1: "R(2,0): two subject rectangles, no clip", 2: "R(2,1)", 3: "R(1,2)", 4: "R(3,0): three subject rectangles", 5: "R(1,0)"}
+	rb := func(fam int64) string {
+		return "rectilinear family " + famText[fam] + "; every side coordinate symbolic in [-2^29, 2^29], every rectangle in either orientation; regions compared on every grid cell, solver asked for a far probe only in mismatching cells"
+	}
+
+	// ---- C02 ------------------------------------------------------------
+	var c02 []Job
+	for _, a := range [][]int64{{0, 1, 1, 0}, {0, 2, 0, 1}, {0, 3, 2, 2}, {0, 4, 3, 0}} {
+		c02 = append(c02, Job{Harness: "H_C02_R", Args: a, Tier: "quick", Covers: []string{"C02.done"}, Bounds: rb(a[0]) + "; args (family, clip type, fill rule, options: bit0 reverse-solution, bit1 preserve-collinear off)"})
+	}
+	c02 = append(c02, Job{Harness: "H_C02_reunion", Args: []int64{0, 2, 1}, Tier: "quick", Covers: []string{"C02.reunion.done"}, Bounds: rb(0) + "; solution re-united with itself"})
+	for _, a := range ctfr() {
+		for opts := int64(0); opts < 4; opts++ {
+			c02 = append(c02, Job{Harness: "H_C02_R", Args: []int64{0, a[0], a[1], opts}, Tier: "thorough", Covers: []string{"C02.done"}, Bounds: rb(0)})
+		}
+	}
+	for _, a := range [][]int64{{1, 2, 0, 0}, {1, 2, 1, 1}, {1, 2, 2, 2}, {1, 2, 3, 3}} {
+		c02 = append(c02, Job{Harness: "H_C02_R", Args: a, Tier: "thorough", Covers: []string{"C02.done"}, Bounds: rb(1)})
+	}
+	ps["C02"] = Property{ID: "C02", Level: "model_checking",
+		Explain: "the real sweep executed on every feasible path of the family; per output path: length, no repeated consecutive vertex (solver), winding 0/1 (0/-1 reversed) on every grid cell that can hold a probe 2 units from the solution's edges; re-union compared cell by cell",
+		Assumes: []string{floatAssume, heapAssume, solverAssume},
+		Jobs:    c02}
+
+	// ---- C19 ------------------------------------------------------------
+	c19 := []Job{{Harness: "H_C19_R", Args: []int64{0, 1}, Tier: "quick", Covers: []string{"C19.done"}, Bounds: rb(0) + "; all four clip types (and Difference(C,S), UnionPaths64) in one run, NonZero"}}
+	for _, fr := range []int64{0, 2, 3} {
+		c19 = append(c19, Job{Harness: "H_C19_R", Args: []int64{0, fr}, Tier: "thorough", Covers: []string{"C19.done"}, Bounds: rb(0)})
+	}
+	c19 = append(c19, Job{Harness: "H_C19_R", Args: []int64{1, 0}, Tier: "thorough", Covers: []string{"C19.done"}, Bounds: rb(1)})
+	ps["C19"] = Property{ID: "C19", Level: "model_checking",
+		Explain: "pointwise set identities between the solutions of the four clip types, decided per grid cell on every feasible path; area identities follow up to the band. Inputs with thousands of vertices are outside the bound",
+		Assumes: []string{floatAssume, heapAssume, solverAssume},
+		Jobs:    c19}
+
+	// ---- C17 ------------------------------------------------------------
+	var c17 []Job
+	for _, a := range [][]int64{{0, 1, 1, 1}, {0, 1, 1, 3}, {0, 1, 1, 5}, {0, 1, 1, 6}, {0, 1, 1, 9}, {0, 1, 0, 4}} {
+		c17 = append(c17, Job{Harness: "H_C17_R", Args: a, Tier: "quick", Covers: []string{"C17.done"}, Bounds: rb(a[0]) + "; args (family, clip type, fill rule, transformation 0..9)"})
+	}
+	c17 = append(c17, Job{Harness: "H_C17_twice", Args: []int64{0, 4, 0}, Tier: "quick", Covers: []string{"C17.twice.done"}, Bounds: rb(0) + "; the same call twice"})
+	for _, cf := range [][]int64{{2, 1}, {3, 2}, {4, 0}} {
+		for tr := int64(0); tr <= 9; tr++ {
+			if tr == 4 && cf[1] != 0 || tr == 5 && cf[1] == 0 || tr == 6 && cf[0] == 3 {
+				continue
+			}
+			c17 = append(c17, Job{Harness: "H_C17_R", Args: []int64{0, cf[0], cf[1], tr}, Tier: "thorough", Covers: []string{"C17.done"}, Bounds: rb(0)})
+		}
+	}
+	for _, tr := range []int64{0, 1, 7} {
+		c17 = append(c17, Job{Harness: "H_C17_R", Args: []int64{1, 2, 1, tr}, Tier: "thorough", Covers: []string{"C17.done"}, Bounds: rb(1)})
+	}
+	ps["C17"] = Property{ID: "C17", Level: "model_checking",
+		Explain: "the same operation on two spellings of the same symbolic input inside one run; regions compared cell by cell. Determinism: the executor aborts a path on any nondeterminism source (map range, goroutine, select, channel) and the sort is the toolchain's real pdqsort, interpreted",
+		Assumes: []string{floatAssume, heapAssume, solverAssume},
+		Monitors: []string{"nondeterminism-source"},
+		Jobs:    c17}
+
+	// ---- C12 ------------------------------------------------------------
+	var c12 []Job
+	for seq := int64(0); seq <= 8; seq++ {
+		c12 = append(c12, Job{Harness: "H_C12_hist", Args: []int64{0, 1, 1, seq}, Tier: "quick", Covers: []string{"C12.done"},
+			Bounds: rb(0) + "; args (family, clip type, fill rule, history 0..8); histories of length <= 4 calls, compared with a fresh engine"})
+	}
+	c12 = append(c12, Job{Harness: "H_C12_D", Args: []int64{1, 1}, Tier: "quick", Covers: []string{"C12.D.done"},
+		Bounds: "floating-point engine, precision 2: symbolic integer-valued rectangle in [-1000,1000] against a fixed square, solution argument pre-filled"})
+	for _, cf := range [][]int64{{2, 0}, {4, 3}} {
+		for seq := int64(0); seq <= 8; seq++ {
+			c12 = append(c12, Job{Harness: "H_C12_hist", Args: []int64{0, cf[0], cf[1], seq}, Tier: "thorough", Covers: []string{"C12.done"}, Bounds: rb(0)})
+		}
+	}
+	for _, seq := range []int64{2, 7} {
+		c12 = append(c12, Job{Harness: "H_C12_hist", Args: []int64{1, 2, 1, seq}, Tier: "thorough", Covers: []string{"C12.done"}, Bounds: rb(1)})
+	}
+	ps["C12"] = Property{ID: "C12", Level: "model_checking",
+		Explain: "bounded call histories on one engine object (concrete sequences of <= 4 calls, symbolic geometry) compared with a fresh engine on every feasible path; every store into a backing array reachable from a harness argument is flagged by the executor's heap monitor",
+		Assumes: []string{floatAssume, heapAssume, solverAssume},
+		Monitors: []string{"caller-slice-write"},
+		Jobs:    c12}
+
 	return ps
 }
